@@ -927,7 +927,12 @@ def gen_history(rng, nseq, maxlen):
                 if ref_decode(bytes.fromhex(hx)) is not None:
                     objs.append(len(steps))
                 steps.append(["d", hx])
-            elif r < 0.8:
+            elif r < 0.62:
+                # decode another frame into the SAME typed object (any type: _APDU.decode takes
+                # whatever header the generic APDU holds); mostly frames that decode
+                hx = rng.choice(HIST_FRAMES)
+                steps.append(["r", rng.choice(objs), hx])
+            elif r < 0.85:
                 i = rng.choice(objs)
                 which = rng.choice(["typed", "typed", "apdu"])
                 how = rng.choice(["put_data", "put_data", "put", "iadd", "extend", "put_short", "append_segment"])
@@ -941,6 +946,21 @@ def gen_history(rng, nseq, maxlen):
                 steps.append(["e", rng.choice(objs), rng.choice(["typed", "typed", "apdu"])])
         seqs.append(steps)
     return seqs
+
+
+REDECODE_FRAMES = ["30010c0c0200", "3cff807f0e" + "deadbeef" * 4, "30000c", "50070f91029120", "710704", "50080f9101911f",
+                   "0245090c0c0200001419 4d".replace(" ", ""), "02450a0c0c02000015194d", "100809011902", "1008",
+                   "20010f", "43010203", "600109", "0c0501000f0f" + "aa" * 5, "7001 04 ffee".replace(" ", "")]
+
+
+def gen_redecode_pairs():
+    """every ordered pair (A, B) of frames: decode A into a typed object, decode B into the
+    SAME object, re-encode; plus one object per run used for the whole list in turn"""
+    seqs = [[["d", a], ["r", 0, b], ["e", 0, "typed"]] for a in REDECODE_FRAMES for b in REDECODE_FRAMES]
+    chain = [["d", REDECODE_FRAMES[0]]]
+    for b in REDECODE_FRAMES[1:] + REDECODE_FRAMES:
+        chain += [["r", 0, b], ["e", 0, "typed"]]
+    return seqs + [chain]
 
 
 def exec_history(ctx, steps):
@@ -985,7 +1005,7 @@ def exec_history(ctx, steps):
             elif rep["r"] != "ok":
                 fail("decode-refused", k, "step %d: %s refused (%s) after this history" % (k, st[1], rep["k"]))
             else:
-                hdr[k] = ref[0]
+                hdr[(k, "typed")] = hdr[(k, "apdu")] = ref[0]
                 want[(k, "typed")] = bytearray(ref[1])
                 want[(k, "apdu")] = bytearray()
                 if rep["h"] != ref[0]:
@@ -994,6 +1014,40 @@ def exec_history(ctx, steps):
                 elif rep["data"] != ref[1].hex():
                     fail("payload", k, "step %d: %s decodes with payload %s after this history, its own payload is %s"
                          % (k, st[1], rep["data"], ref[1].hex()))
+        elif st[0] == "r":
+            _r, i, hx = st
+            o = objs.get((i, "typed"))
+            if o is None:
+                continue
+            raw = bytes.fromhex(hx)
+            ref = ref_decode(raw)
+            try:
+                apdu = A.APDU()
+                apdu.decode(PDU(raw))
+                o.decode(apdu)                       # the SAME typed object once more
+                rep = {"r": "ok", "h": get_fields(o), "data": bytes(o.pduData).hex()}
+                objs[(k, "apdu")] = apdu
+                want[(k, "apdu")] = bytearray()
+            except Exception as e:
+                rep = {"r": "err", "k": core.exc_kind(e)}
+            out.append((case, rep, {"op": "adec", "hex": hx}))
+            if ref is None:
+                if rep["r"] == "ok":
+                    fail("decode-accepted", k, "step %d: %s accepted" % (k, hx))
+                elif rep["k"] != "decoding":
+                    fail("wrong-error", k, "step %d: %s raised %s" % (k, hx, rep["k"]))
+            elif rep["r"] != "ok":
+                fail("decode-refused", k, "step %d: %s refused (%s) when decoded into the object of step %d" % (
+                    k, hx, rep["k"], i))
+            else:
+                hdr[(i, "typed")] = hdr[(k, "apdu")] = ref[0]
+                want[(i, "typed")] = bytearray(ref[1])
+                if rep["h"] != ref[0]:
+                    fail("roundtrip", k, "step %d: %s decoded into the typed object of step %d gives %r, the frame "
+                         "says %r" % (k, hx, i, rep["h"], ref[0]))
+                elif rep["data"] != ref[1].hex():
+                    fail("payload", k, "step %d: %s decoded into the typed object of step %d (used before) has "
+                         "payload %s, the frame's payload is %s" % (k, hx, i, rep["data"], ref[1].hex()))
         elif st[0] == "m":
             _m, i, which, how, arg = st
             o = objs.get((i, which))
@@ -1031,8 +1085,8 @@ def exec_history(ctx, steps):
             except Exception as e:
                 rep = {"r": "err", "k": enc_exc_kind(e)}
             data = bytes(want[(i, which)])
-            out.append((case, rep, {"op": "aenc", "h": hdr[i], "data": data.hex()}))
-            exp = (expected_layout(hdr[i]) + data).hex()
+            out.append((case, rep, {"op": "aenc", "h": hdr[(i, which)], "data": data.hex()}))
+            exp = (expected_layout(hdr[(i, which)]) + data).hex()
             if rep.get("hex") != exp:
                 fail("layout", k, "step %d: object of step %d re-encodes as %r, its header + its payload is %s" % (
                     k, i, rep.get("hex", rep), exp))
@@ -1070,6 +1124,9 @@ def run_history(ctx, stream, seqs, stop=True):
 
 def shard_history(ctx, spec):
     idx, nseq, maxlen = spec
+    if idx == "pairs":
+        run_history(ctx, "history-redecode", gen_redecode_pairs())
+        return
     rng = ctx.sub_rng("c07-history-%d" % idx)
     run_history(ctx, "history", gen_history(rng, nseq, maxlen))
 
@@ -1142,8 +1199,11 @@ def sig(case, m):
     if op == "history":
         st = case["steps"][case["at"]]
         past = sum(1 for x in case["steps"][:case["at"]] if x[0] == "m")
-        if st[0] == "d":
+        if st[0] in ("d", "r"):
             res = (m["h"]["t"], m["h"]["seg"], m["data"] == "") if m.get("r") == "ok" else m.get("k")
+            if st[0] == "r":
+                first = next((x[1] for x in case["steps"][:st[1] + 1][::-1] if x[0] == "d"), "")[:1]
+                res = (res, "into", first)
         else:
             res = (st[2], m.get("r"))
         return ("history", st[0], res, min(past, 3))
@@ -1234,7 +1294,7 @@ def run(ctx):
     # 0b. objects with a past, inside worker processes (each worker runs several sequences
     #     one after the other in the same interpreter)
     nh, per, ml = (8, 40, 24) if ctx.quick else (16, 1500, 40)
-    core.run_shards(ctx, "harness.c07", "shard_history", [(i, per, ml) for i in range(nh)])
+    core.run_shards(ctx, "harness.c07", "shard_history", [("pairs", 0, 0)] + [(i, per, ml) for i in range(nh)])
     # 1. tables
     tc = gen_tables(ctx)
     ta = run_cases(ctx, "tables", tc)
